@@ -32,9 +32,10 @@ func init() {
 		Stub:              []string{"as the NET world (C02)"},
 		FaultsNotInjected: []string{"Byzantine equivocation (part 2 of C05) is injected in the CHAIN world part"},
 		QuickBudget:       35 * time.Second, ThoroughBudget: 12 * time.Minute,
-		MinRuns:    6,
-		Exec:       runC05Net,
-		PanicClass: kit.PanicInRepo("engine-panic"),
+		MinRuns:        6,
+		Exec:           runC05Net,
+		ExpectedProbes: []string{"candidate:same-hash", "candidate:different-hashes"},
+		PanicClass:     kit.PanicInRepo("engine-panic"),
 	})
 }
 
